@@ -81,6 +81,10 @@ def insertMode (m : Mode) : List Mode → List Mode
   | [] => [m]
   | x :: xs => if m.id < x.id then m :: x :: xs else x :: insertMode m xs
 
+/-- `NewModel(WithInitialMode(modes…), WithInitialActiveMode(active))`: the given modes as initial records
+(listed sorted by id), the given placeholder as active mode, nothing changed yet.  `St.init = St.config [] Mode.blank`. -/
+def St.config (modes : List Mode) (active : Mode) : St := ⟨modes.foldr insertMode [], active, false⟩
+
 def replaceMode (m : Mode) (l : List Mode) : List Mode := l.map (fun x => if x.id = m.id then m else x)
 
 def eraseMode (id : String) (l : List Mode) : List Mode := l.filter (fun x => x.id ≠ id)
@@ -142,6 +146,7 @@ inductive Op where
   | setActive (m : Mode)
   | changeActive (id : String) (now : Nat)
   | clear (now : Nat)                                  -- ChangeToNormalMode
+  | findMode (id : String)                             -- FindMode (read only)
   -- ElectricApi / MemorySettingsApi servers
   | sCreate (m : Mode) (cands : List String)
   | sUpdate (m : Mode) (mask : Option Mask)
@@ -201,6 +206,7 @@ def step (s : St) : Op → St × Res
   | .setActive m => setActive s m
   | .changeActive id now => changeActive s id now
   | .clear now => changeToNormal s now
+  | .findMode id => (s, match find s id with | some m => .ok (some m) | none => .err .notFound)
   | .sCreate m cands => if m.id ≠ "" then (s, .err .invalidArgument) else createOrAdd s m cands
   | .sUpdate m mask => if m.id = "" then (s, .err .invalidArgument) else updateMode s m mask
   | .sDelete id am =>
